@@ -6,6 +6,7 @@
 package witness
 
 import (
+	"encoding/json"
 	"errors"
 	"fmt"
 	"io"
@@ -356,5 +357,23 @@ func TestF28_PointerToDecimal(t *testing.T) {
 	res, err = mustNoPanic(t, `$.xs.First()`, doc)
 	if got, ok := res.(decimal.Decimal); err != nil || !ok || !got.Equal(d) {
 		t.Errorf("$.xs.First() on []any{*decimal.Decimal}: want the decimal 1.5, got %T %v %v", res, res, err)
+	}
+}
+
+func TestF29_BlockedOptionalStepNotOffered(t *testing.T) {
+	schema := "input: { _dependencies: [], name: string }\ns1: { _dependencies: [], result: string }\ns2?: { _dependencies: [], result: string }\ns3: { _dependencies: [\"s1\"], result: string }\n"
+	tc, err := mpath.CueValidate("$.input.name", schema, "s3")
+	if err != nil || tc == nil {
+		t.Fatalf("unexpected: %v", err)
+	}
+	b, _ := json.Marshal(tc)
+	var tree map[string]any
+	json.Unmarshal(b, &tree)
+	parts, _ := tree["parts"].([]any)
+	root, _ := parts[0].(map[string]any)
+	av, _ := root["available"].(map[string]any)
+	fields := fmt.Sprint(av["fields"])
+	if fields != "[input s1]" {
+		t.Errorf("fields offered at the root for step s3: want [input s1] (s2 is blocked, s3 is the current step), got %s", fields)
 	}
 }
